@@ -221,8 +221,12 @@ func TestC08Concurrent(t *testing.T) {
 				}
 			}(w)
 		}
-		if c.Reopener {
+		reopenerDone := make(chan struct{})
+		if !c.Reopener {
+			close(reopenerDone)
+		} else {
 			go func() {
+				defer close(reopenerDone)
 				for !stop.Load() {
 					_ = sink.Reopen()
 					time.Sleep(100 * time.Microsecond)
@@ -231,6 +235,7 @@ func TestC08Concurrent(t *testing.T) {
 		}
 		wg.Wait()
 		stop.Store(true)
+		<-reopenerDone // a Reopen after the directory is removed would re-create it (open() does MkdirAll)
 		files, names, err := readDirOrdered(root, "ev.log")
 		if err != nil {
 			t.Skip(err.Error())
